@@ -81,7 +81,7 @@ def check(run: Run) -> None:
             # R2 guards
             fx = Facts(fa, s)
             g1 = fx.isinstance_of(("attr", V, "func"), {"ast.Attribute"}) or fx.isinstance_of(("attr", node_p, "func"), {"ast.Attribute"})
-            g2 = _membership_fact(fa, fx, V, node_p)
+            g2 = _membership_fact(fa, fx, V, node_p, _names_terms(m, ctx, outer, cls, fi))
             run.check(g1, "C17.R2", fi, s, "guarded by callee is an ast.Attribute", "rewrite not guarded by isinstance(node.func, ast.Attribute)")
             run.check(g2, "C17.R2", fi, s, "guarded by func.attr in function_names", "rewrite not guarded by node.func.attr in function_names: non-operator methods are rewritten too")
     run.check(n_rewrite >= 1, "C17.R3", fi, fi.node, "a rewriting path exists", "no path builds the function-form call")
@@ -112,14 +112,50 @@ def _all_leaf_nodes_visited(t, node_p) -> bool:
     return go(t, False)
 
 
-def _membership_fact(fa, fx: Facts, V, node_p) -> bool:
+def _names_terms(m, ctx, outer, cls, fi):
+    """the terms that, inside visit_Call, denote the list of names handed to change_extension_functions_to_calls:
+    the enclosing function's parameter (closure), or an attribute that __init__ fills, unchanged, from a constructor
+    argument to which the driver passes that parameter."""
+    dflt = outer.node.args.defaults
+    pos = outer.node.args.posonlyargs + outer.node.args.args
+    pname = None
+    for a_, d_ in zip(pos[len(pos) - len(dflt):], dflt):
+        if isinstance(d_, ast.Name) and d_.id == "default_list_of_functions":
+            pname = a_.arg
+    if pname is None and len(outer.pos_params) >= 2:
+        pname = outer.pos_params[1]
+    out = [("free", pname)]
+    init = cls.methods.get("__init__")
+    if init is not None and len(init.pos_params) >= 2:
+        fi_a = ctx.analysis(init)
+        ofa = ctx.analysis(outer)
+        for n in own_nodes(init):
+            if isinstance(n, ast.Assign) and len(n.targets) == 1 and isinstance(n.targets[0], ast.Attribute) and isinstance(n.targets[0].value, ast.Name) and n.targets[0].value.id == init.pos_params[0]:
+                v = strip_sites(fi_a.term_of(n.value))
+                if v[0] != "param" or v[1] not in init.pos_params[1:]:
+                    continue
+                k = init.pos_params.index(v[1]) - 1
+                attr = n.targets[0].attr
+                # no other store to the attribute anywhere in the class
+                others = [x for f_ in cls.methods.values() for x in own_nodes(f_) if isinstance(x, ast.Attribute) and x.attr == attr and isinstance(x.ctx, (ast.Store, ast.Del)) and x is not n.targets[0]]
+                if others:
+                    continue
+                for c in calls_in(outer):
+                    if isinstance(c.func, ast.Name) and c.func.id == cls.name:
+                        actual = c.args[k] if k < len(c.args) else next((kw.value for kw in c.keywords if kw.arg == v[1]), None)
+                        if actual is not None and strip_sites(ofa.term_of(actual)) == ("param", pname):
+                            out.append(("attr", ("param", fi.pos_params[0]), attr))
+    return out
+
+
+def _membership_fact(fa, fx: Facts, V, node_p, names_terms) -> bool:
     for a, pol in fx.atoms:
         if isinstance(a, ast.Compare) and len(a.ops) == 1:
             op = type(a.ops[0])
             if (op is ast.In and pol) or (op is ast.NotIn and not pol):
                 l = strip_sites(fa.term_of(a.left))
                 r = strip_sites(fa.term_of(a.comparators[0]))
-                if strip_visits(l) == ("attr", ("attr", node_p, "func"), "attr") and r == ("free", "function_names"):
+                if strip_visits(l) == ("attr", ("attr", node_p, "func"), "attr") and r in names_terms:
                     return True
     return False
 
@@ -143,11 +179,11 @@ def _table_agreement(run: Run, m) -> None:
         for c in calls_in(f):
             if isinstance(c.func, ast.Name) and c.func.id == "is_call_of" and len(c.args) == 2 and isinstance(c.args[1], ast.Constant):
                 need[c.args[1].value] = f"is_call_of in {f.name}"
-    agg = m.find_class("aggregate_node_transformer").methods["visit_Call"]
-    for n in own_nodes(agg):
-        if isinstance(n, ast.Compare) and isinstance(n.comparators[0], ast.Constant) and isinstance(n.comparators[0].value, str):
-            if n.comparators[0].value != "len":
-                need[n.comparators[0].value] = "aggregate_node_transformer"
+    from .c19 import shortcut_names
+
+    for nm_ in sorted(shortcut_names(m)):
+        if nm_ != "len":
+            need[nm_] = "aggregate_node_transformer"
     need["Aggregate"] = "target of the aggregate lowering"
     coll = m.find_class("ObjectStreamInternalMethods")
     for name, f in coll.methods.items():
